@@ -56,6 +56,8 @@ class Block:
             if isinstance(n, ast.Call) and isinstance(n.func, ast.Attribute) and n.func.attr in ('addIn', 'addOut', 'addInOut') \
                     and len(n.args) >= 2 and isinstance(n.args[1], ast.Name):
                 p = getattr(n, '_parent', None)
+                while isinstance(p, ast.IfExp):        # self.e = None if enable is None else self.addIn('e', enable)
+                    p = getattr(p, '_parent', None)
                 if isinstance(p, ast.Assign) and len(p.targets) == 1:
                     t = p.targets[0]
                     if isinstance(t, ast.Attribute) and isinstance(t.value, ast.Name) and t.value.id == 'self':
@@ -77,6 +79,10 @@ class Block:
         if init is None:
             return out
         for n in ast.walk(init):
+            if isinstance(n, ast.Assign) and isinstance(n.value, ast.IfExp) and any(isinstance(x, ast.Constant) and x.value is None for x in (n.value.body, n.value.orelse)):
+                for t in n.targets:
+                    if isinstance(t, ast.Attribute) and isinstance(t.value, ast.Name) and t.value.id == 'self' and t.attr in self.ports:
+                        out.append(t.attr)
             if isinstance(n, ast.If):
                 for s in n.body + n.orelse:
                     if isinstance(s, ast.Assign) and isinstance(s.value, ast.Constant) and s.value.value is None:
